@@ -633,6 +633,50 @@ def inline_local_closures(func):
     item, workers, done_event)`), possibly through one alias `name = closure`, are replaced by the closure's body; the closure
     must not be used in any other way (passed on, returned, called in an expression)."""
     fn = func.node
+    # `name = lambda a, b: expr` bound once is the closure `def name(a, b): expr` (its value is not used by a call in statement position)
+    lam_stores = {}
+    for n_ in own_nodes(fn):
+        if isinstance(n_, ast.Name) and isinstance(n_.ctx, ast.Store):
+            lam_stores[n_.id] = lam_stores.get(n_.id, 0) + 1
+    lam_defs = {}
+    for a_ in own_nodes(fn):
+        if isinstance(a_, ast.Assign) and len(a_.targets) == 1 and isinstance(a_.targets[0], ast.Name) and isinstance(a_.value, ast.Lambda) \
+                and lam_stores.get(a_.targets[0].id) == 1 and not a_.value.args.vararg and not a_.value.args.kwarg:
+            d_ = ast.FunctionDef(name=a_.targets[0].id, args=a_.value.args, body=[ast.Expr(value=a_.value.body)], decorator_list=[], returns=None, type_comment=None)
+            try:
+                d_.type_params = []
+            except Exception:
+                pass
+            ast.copy_location(d_, a_)
+            ast.fix_missing_locations(d_)
+            lam_defs[a_.targets[0].id] = (a_, d_)
+    if lam_defs:
+        def repl(stmts):
+            out = []
+            for s_ in stmts:
+                hit = [v for v in lam_defs.values() if v[0] is s_]
+                if hit:
+                    out.append(hit[0][1])
+                    continue
+                if not isinstance(s_, (ast.FunctionDef, ast.AsyncFunctionDef, ast.ClassDef)):
+                    s_ = copy.copy(s_)
+                    for fld in ("body", "orelse", "finalbody"):
+                        if hasattr(s_, fld) and isinstance(getattr(s_, fld), list):
+                            setattr(s_, fld, repl(getattr(s_, fld)))
+                    if isinstance(s_, ast.Try):
+                        hs = []
+                        for h in s_.handlers:
+                            h2 = copy.copy(h)
+                            h2.body = repl(h.body)
+                            hs.append(h2)
+                        s_.handlers = hs
+                out.append(s_)
+            return out
+        fn2 = copy.copy(fn)
+        fn2.body = repl(list(fn.body))
+        fn = fn2
+        func = Func(func.qual, fn, func.module, func.cls, func.parent)
+        func.extern = dict(getattr(func, "extern", {}) or {})
     defs = {}
     for s in ast.walk(fn):
         if isinstance(s, ast.FunctionDef) and s is not fn:
